@@ -50,6 +50,13 @@ fn hops() -> impl Strategy<Value = Vec<Hop>> {
     ]
 }
 
+/// What the ambient context holds when an ambient hop pushes (only looked at by CtxtPush / Ambient /
+/// CtxtThread hops).
+fn enclosing() -> impl Strategy<Value = obs::Enclosing> {
+    use obs::Enclosing::*;
+    prop_oneof![4 => Just(None), 3 => Just(SameTextString), 2 => Just(SameTextNumber), 2 => Just(SameValue), 2 => Just(OtherValue), 1 => Just(OtherKeys)]
+}
+
 fn opt() -> impl Strategy<Value = Opt> {
     prop_oneof![7 => Just(Opt::Plain), 2 => Just(Opt::Some), 1 => Just(Opt::None)]
 }
@@ -73,14 +80,14 @@ fn modes_for(s: &Subj) -> Vec<Mode> {
 }
 
 fn case_of(subj: impl Strategy<Value = Subj>) -> impl Strategy<Value = Case> {
-    (subj, any::<u32>(), opt(), hops(), prop::bool::weighted(0.25)).prop_map(|(subj, mi, opt, hops, as_map)| {
+    (subj, any::<u32>(), opt(), hops(), prop::bool::weighted(0.25), enclosing()).prop_map(|(subj, mi, opt, hops, as_map, enclosing)| {
         let modes = modes_for(&subj);
         let mode = modes[pick(mi, modes.len())];
         let opt = match &subj {
             Subj::Wk(Wk::LvlOpt(_)) | Subj::Wk(Wk::TraceIdOpt(_)) | Subj::Wk(Wk::SpanIdOpt(_)) => Opt::Plain,
             _ => opt,
         };
-        Case { subj, mode, opt, hops, as_map, emit_macro: false, sinks: false }
+        Case { subj, mode, opt, hops, as_map, emit_macro: false, sinks: false, enclosing }
     })
 }
 
@@ -125,7 +132,7 @@ fn sink_case() -> impl Strategy<Value = Case> {
             _ => &[Default, Default, Default, Value, Display, Debug, Sval, Serde],
         };
         let mode = modes[pick(mi, modes.len())];
-        Case { subj, mode, opt, hops: Vec::new(), as_map: false, emit_macro: true, sinks: true }
+        Case { subj, mode, opt, hops: Vec::new(), as_map: false, emit_macro: true, sinks: true, enclosing: obs::Enclosing::None }
     })
 }
 
@@ -240,6 +247,11 @@ fn main() {
         s.require("error:depth-0", 100);
         s.require("dontcare:cross-framework-noncomparable", 20);
         s.require("site:emit-macro", 2000);
+        // an ambient hop made inside an enclosing frame that already holds the key
+        s.require(obs::ENC_SAME_TEXT, 3000);
+        s.require(obs::ENC_SAME_VALUE, 1000);
+        s.require(obs::ENC_OTHER_VALUE, 1000);
+        s.require(obs::ENC_OTHER_KEYS, 500);
 
         s.gen("primitives", s.n(100_000, 3_000_000), || case_of(prims()), sites::check);
         s.gen("strings", s.n(40_000, 1_200_000), || case_of(strings()), sites::check);
@@ -262,6 +274,6 @@ fn main() {
         s.require("siblings:all-none", 100);
         s.require("siblings:all-optionals-some", 1000);
         s.enumerate("sibling-shapes", multi::all_shapes().into_iter(), multi::check);
-        s.gen("sibling-properties", s.n(60_000, 1_800_000), || multi::mcase(hops()), multi::check);
+        s.gen("sibling-properties", s.n(60_000, 1_800_000), || multi::mcase(hops(), enclosing()), multi::check);
     })
 }
